@@ -232,7 +232,8 @@ def gen_request_stream(r, ctx):
         if r.random() < 0.8:
             base_h.append(("Connection", "close"))
         bk = r.random()
-        if method in ("POST", "PUT", "PATCH", "FROB", "PROPFIND") or bk < 0.1:
+        # bodies also on methods that normally carry none (CONNECT with a body, GET/HEAD/TRACE with a body ...)
+        if method in ("POST", "PUT", "PATCH", "FROB", "PROPFIND") or bk < 0.1 or (method in ("CONNECT", "GET", "HEAD", "TRACE", "OPTIONS", "DELETE") and bk < 0.3):
             data = make_body(ctx["req_id"], r.choice([0, 1, 10, 1000, 70000]))
             fr = r.random()
             if fr < 0.4:
@@ -409,7 +410,14 @@ def run(a, res):
                 ctx = dict(ctx, req_id=f"{c['seed']}.{c['n']}.o")     # the origin answers this one with a hostile stream, too
             data = gen_request_stream(r, ctx)
             pts = sorted({r.randrange(1, len(data)) for _ in range(c["nsplits"])}) if len(data) > 1 else []
-            n, ended, head = hostile_client(data, pts, c["delay"])
+            delay = c["delay"]
+            if r.random() < 0.4:
+                # a read boundary exactly between a request head and what follows it (its body or the next request)
+                i = data.find(b"\r\n\r\n")
+                if 0 < i + 4 < len(data):
+                    pts = sorted(set(pts) | {i + 4})
+                    delay = max(delay, 0.02)
+            n, ended, head = hostile_client(data, pts, delay)
             res.count("hostile_request_streams")
             res.count("hostile_request_bytes", len(data))
             outcomes.append(("client", "ended" if ended else "open", head[9:12].decode("latin1") if head.startswith(b"HTTP/") else ("silent" if n == 0 else "other")))
